@@ -201,6 +201,12 @@ private:
     //! Computing Sample Variances"
     double combine_variance(const Aggregate& other) const noexcept
     {
+        // as in combine_means(): an empty side contributes nothing (and
+        // empty + empty must not divide 0 by 0)
+        if (count_ == 0)
+            return other.nvar_;
+        if (other.count_ == 0)
+            return nvar_;
         double delta = mean_ - other.mean_;
         return nvar_ + other.nvar_ +
                (delta * delta) * (count_ * other.count_) /
